@@ -256,111 +256,135 @@ fn parse_stream_reject(pk: &str) -> Option<link::PktId> {
 }
 
 /// Per-packet statement: a datagram the link delivered unmodified must never be rejected by its
-/// receiver for an authentication/decryption failure.  The receivers report such failures per
-/// packet (stream: `debug!(non_fatal_error, ?packet)`; control: `stream_control_packet_received
-/// { is_authenticated: false }`).  A failure is attributed by the packet's header identity, not by
-/// time: every forged/mutated/tainted datagram delivered in the run accounts for one failure of
-/// the identity its bytes parse to; a failure beyond that, for an identity that a genuine
-/// delivered datagram carries, is a genuine packet rejected.  Duplicates, packets of finished
-/// streams, replays and out-of-window key ids are reported by the receiver under other error
-/// kinds and are not counted.
+/// receiver for an authentication/decryption failure.
+///
+/// Observation.  The receivers report such failures per packet: stream packets through
+/// `debug!(non_fatal_error = %err, ?packet)` (stream/recv/state.rs), control packets through
+/// `stream_control_packet_received { is_authenticated: false }`.  A report is attributed by the
+/// packet's header identity, never by timing alone.
+///
+/// What is not a violation (each found on the unchanged tree and confirmed with an instrumented
+/// build: the receiver's error path authenticates the already opened buffer a second time, so any
+/// refusal AFTER a successful open is reported as "invalid tag"):
+///  * forged / mutated / tainted datagrams: each delivered one accounts for one report of the
+///    identity its bytes parse to;
+///  * duplicates and out-of-window packets: the duplicate filter is a 129-wide sliding window over
+///    accepted packet numbers per stream, direction and space.  A report at time t is excused if by
+///    t the same number had been delivered twice, or a number at least 129 higher had been
+///    delivered (genuine or forged: a forged packet number can be taken for a retransmission, known
+///    finding mid_stream:*).  "By t" is causal: the receiver cannot have accepted what the link had
+///    not yet delivered, whatever order it processes its queue in;
+///  * dead endpoints: the stream endpoint processing the packet had already published
+///    `stream_receiver_errored`, or was created from a replayed key id (second accept for the same
+///    credentials, `replay_definitely_detected` raised inside that packet's processing);
+///  * a packet the sender later saw acknowledged (it was accepted before the spurious report);
+///  * reports in the last moments of a run, and everything after the link stopped recording.
 fn genuine_packet_rejected(p: &str, pre: &str, plan: &Plan, out: &RunOut, vs: &mut Vec<Violation>) {
-    if out.log_truncated {
-        return;
-    }
-    let mut forged: BTreeMap<link::PktId, u64> = BTreeMap::new();
-    let mut genuine: BTreeMap<link::PktId, u64> = BTreeMap::new();
-    // genuine deliveries the receiver is entitled to refuse as duplicates: its duplicate filter is a
-    // 129-wide sliding window over the packet numbers it has accepted, per stream, direction and
-    // packet-number space; the refusal of such a packet surfaces as `Duplicate` or (because the
-    // error path authenticates the already opened buffer a second time) as `invalid tag`
-    let mut stale: BTreeMap<link::PktId, u64> = BTreeMap::new();
-    let mut retx: std::collections::BTreeSet<link::PktId> = Default::default();
-    let mut order: Vec<usize> = (0..out.log.len()).filter(|i| out.log[*i].fate == FATE_DELIVERED && out.log[*i].t_deliver_ns > 0).collect();
-    order.sort_by_key(|i| (out.log[*i].t_deliver_ns, *i));
-    let mut windows: BTreeMap<(u128, u64, u8, u8), (std::collections::BTreeSet<u64>, u64)> = BTreeMap::new();
-    for i in order {
-        let r = &out.log[i];
-        let Some(id) = r.pkt else { continue };
-        if r.label == LABEL_FORGED {
-            *forged.entry(id).or_insert(0) += 1;
+    let judge_until_ns = if out.log_truncated { out.log_truncated_at_ns } else { u64::MAX };
+    let margin_ns = (4 * (plan.cfg.base_delay_us + plan.cfg.jitter_us) + 100_000) * 1000;
+    type Key = (u128, u64, u8, u8); // credential id, key id, direction, space
+
+    let mut forged_left: BTreeMap<link::PktId, u64> = BTreeMap::new();
+    // first genuine delivery per identity: (direction, space, retransmission, delivery time)
+    let mut genuine: BTreeMap<link::PktId, (u8, u8, bool, u64)> = BTreeMap::new();
+    let mut by_key: BTreeMap<Key, Vec<(u64, u64)>> = BTreeMap::new(); // (delivery time, packet number)
+    for r in &out.log {
+        if r.fate != FATE_DELIVERED || r.t_deliver_ns == 0 {
             continue;
         }
-        *genuine.entry(id).or_insert(0) += 1;
-        if r.retx {
-            retx.insert(id);
-        }
-        if id.kind == link::KIND_STREAM {
-            let pn = id.f[2];
-            // one window per stream and direction: early packets carry queue id 0 (acceptor), later ones
-            // the peer's queue id, but they share the receiver's filter
-            let w = windows.entry((id.cred, id.f[0], r.dir, r.space)).or_insert_with(|| (Default::default(), 0));
-            let fresh = !w.0.contains(&pn) && !(w.1 >= pn + 129);
-            if !fresh {
-                *stale.entry(id).or_insert(0) += 1;
+        let Some(id) = r.pkt else { continue };
+        if r.label == LABEL_FORGED {
+            *forged_left.entry(id).or_insert(0) += 1;
+            if id.kind == link::KIND_STREAM {
+                for sp in [0u8, 1] {
+                    by_key.entry((id.cred, id.f[0], r.dir, sp)).or_default().push((r.t_deliver_ns, id.f[2]));
+                }
             }
-            w.0.insert(pn);
-            w.1 = w.1.max(pn);
+            continue;
+        }
+        genuine.entry(id).or_insert((r.dir, r.space, r.retx, r.t_deliver_ns));
+        if id.kind == link::KIND_STREAM {
+            by_key.entry((id.cred, id.f[0], r.dir, r.space)).or_default().push((r.t_deliver_ns, id.f[2]));
         }
     }
-    let mut fails: BTreeMap<link::PktId, (u64, String)> = BTreeMap::new();
-    for (err, pk) in &out.app.rejects.stream {
-        if !err.contains("could not decrypt packet") {
+    // per key: deliveries sorted by time with the running maximum packet number
+    let mut prefix: BTreeMap<Key, Vec<(u64, u64, u64)>> = BTreeMap::new(); // (time, pn, max so far)
+    for (k, mut v) in by_key {
+        v.sort();
+        let mut m = 0u64;
+        let w: Vec<(u64, u64, u64)> = v
+            .into_iter()
+            .map(|(t, pn)| {
+                m = m.max(pn);
+                (t, pn, m)
+            })
+            .collect();
+        prefix.insert(k, w);
+    }
+    let mut repeats: BTreeMap<(u64, u64, u64, u64), u64> = BTreeMap::new();
+    for ((_span, pn, off, plen, len), n) in &out.app.rejects.passes {
+        if *n > 1 {
+            *repeats.entry((*pn, *off, *plen, *len)).or_insert(0) += (*n - 1) as u64;
+        }
+    }
+
+    // (identity, report time, error text) for every authentication failure under judgement
+    let mut reports: Vec<(link::PktId, u64, String)> = vec![];
+    for (i, (err, pk)) in out.app.rejects.stream.iter().enumerate() {
+        if !err.contains("could not decrypt packet") || out.app.rejects.stream_receiver_dead.get(i).copied().unwrap_or(false) {
+            continue;
+        }
+        let t = out.app.rejects.stream_t_ns.get(i).copied().unwrap_or(0);
+        if t >= judge_until_ns || t + margin_ns > out.end_ns {
             continue;
         }
         if let Some(id) = parse_stream_reject(pk) {
-            let e = fails.entry(id).or_insert((0, err.clone()));
-            e.0 += 1;
+            reports.push((id, t, err.clone()));
         }
     }
-    for (pn, len, cd) in &out.app.rejects.control {
-        let id = link::PktId { kind: link::KIND_CONTROL, cred: 0, f: [*pn, *len, *cd, 0, 0, 0] };
-        let e = fails.entry(id).or_insert((0, "control packet failed authentication".into()));
-        e.0 += 1;
+    if !out.log_truncated {
+        for (pn, len, cd) in &out.app.rejects.control {
+            reports.push((link::PktId { kind: link::KIND_CONTROL, cred: 0, f: [*pn, *len, *cd, 0, 0, 0] }, 0, "control packet failed authentication".into()));
+        }
     }
-    // A refusal reported for a packet that the same receiver nevertheless acknowledged is the
-    // receiver authenticating an already opened buffer a second time on an internal error path
-    // (observed on the unchanged tree: the packet's data was taken, its number acknowledged).  The
-    // sender's `stream_packet_acked` events tell which packets were acknowledged; failures in the
-    // last moments of a run (acknowledgement possibly still in flight) are not judged.
-    let margin_ns = (4 * (plan.cfg.base_delay_us + plan.cfg.jitter_us) + 100_000) * 1000;
-    let mut last_delivery: BTreeMap<link::PktId, u64> = BTreeMap::new();
-    for r in &out.log {
-        if r.fate == FATE_DELIVERED && r.t_deliver_ns > 0 && r.label != LABEL_FORGED {
-            if let Some(id) = r.pkt {
-                let e = last_delivery.entry(id).or_insert(0);
-                *e = (*e).max(r.t_deliver_ns);
+
+    let mut hits: Vec<(link::PktId, bool, String)> = vec![];
+    for (id, t, err) in reports {
+        let Some((dir, space, is_retx, _t0)) = genuine.get(&id).copied() else { continue };
+        if let Some(n) = forged_left.get_mut(&id) {
+            if *n > 0 {
+                *n -= 1;
+                continue;
             }
         }
-    }
-    let mut hits = vec![];
-    let mut excused_acked = 0u64;
-    for (id, (n, err)) in &fails {
-        let nf = forged.get(id).copied().unwrap_or(0) + stale.get(id).copied().unwrap_or(0);
-        let ng = genuine.get(id).copied().unwrap_or(0);
-        if *n > nf && ng > 0 {
-            if id.kind == link::KIND_STREAM {
-                let total = id.f[5] + id.f[4] + 16;
-                if out.app.rejects.acked.contains(&(id.f[2], id.f[3], id.f[4], total)) {
-                    excused_acked += 1;
+        if id.kind == link::KIND_STREAM {
+            let total = id.f[5] + id.f[4] + 16;
+            if out.app.rejects.acked.contains(&(id.f[2], id.f[3], id.f[4], total)) {
+                continue;
+            }
+            if let Some(n) = repeats.get_mut(&(id.f[2], id.f[3], id.f[4], total)) {
+                if *n > 0 {
+                    *n -= 1;
                     continue;
                 }
             }
-            if last_delivery.get(id).copied().unwrap_or(0) + margin_ns > out.end_ns {
-                continue;
+            let pn = id.f[2];
+            if let Some(w) = prefix.get(&(id.cred, id.f[0], dir, space)) {
+                let upto = w.partition_point(|e| e.0 <= t);
+                let max_by_then = if upto > 0 { w[upto - 1].2 } else { 0 };
+                let same = w[..upto].iter().filter(|e| e.1 == pn).count();
+                if max_by_then >= pn + 129 || same >= 2 {
+                    continue;
+                }
             }
-            hits.push((*id, *n, nf, ng, err.clone()));
         }
+        hits.push((id, is_retx, err));
     }
-    let _ = excused_acked;
     for (kind, want_retx) in [(link::KIND_STREAM, false), (link::KIND_STREAM, true), (link::KIND_CONTROL, false)] {
-        let of_kind: Vec<_> = hits.iter().filter(|h| h.0.kind == kind && retx.contains(&h.0) == want_retx).collect();
-        if let Some((id, n, nf, ng, err)) = of_kind.first() {
+        let of_kind: Vec<_> = hits.iter().filter(|h| h.0.kind == kind && (kind == link::KIND_CONTROL || h.1 == want_retx)).collect();
+        if let Some((id, _, err)) = of_kind.first() {
             let what = if kind == link::KIND_STREAM {
-                format!(
-                    "stream packet credentials {:#x}/{} queue {} pn {} offset {} payload_len {}",
-                    id.cred, id.f[0], id.f[1], id.f[2], id.f[3], id.f[4]
-                )
+                format!("stream packet credentials {:#x}/{} queue {} pn {} offset {} payload_len {}", id.cred, id.f[0], id.f[1], id.f[2], id.f[3], id.f[4])
             } else {
                 format!("control packet pn {} len {} control_data_len {}", id.f[0], id.f[1], id.f[2])
             };
@@ -368,7 +392,7 @@ fn genuine_packet_rejected(p: &str, pre: &str, plan: &Plan, out: &RunOut, vs: &m
                 p,
                 &format!("{pre}.genuine_packet_rejected"),
                 format!(
-                    "{} genuine packet identities rejected; first: {what}: {n} authentication failure(s) reported by the receiver ({err}) but only {nf} forged or duplicate/out-of-window datagram(s) with that identity were delivered ({ng} genuine delivered)",
+                    "{} authentication failure(s) reported by receivers for datagrams the link delivered unmodified, not explained by a forged copy, a duplicate, the receive window, a dead endpoint or a later acknowledgement; first: {what} ({err})",
                     of_kind.len()
                 ),
                 if kind == link::KIND_CONTROL {
